@@ -262,7 +262,17 @@ fn run_status(ctx: &mut Ctx, rng: &mut Rng, index: u64) {
         5 => Some(vec![0x80, 0xff, 0xfe, b' ', 0xa0]),
         _ => Some(vec![b'r'; 3000]),
     };
-    let head = Head { version: version.to_owned(), code, reason, fields: vec![Field { name: "X-Code".into(), raw_value: format!(" {code}").into_bytes() }], chunked: false };
+    let mut fields = vec![Field { name: "X-Code".into(), raw_value: format!(" {code}").into_bytes() }];
+    // redirects are not followed in this check: a 3xx head reaches the caller with its Location
+    // field(s) exactly as sent (relative references stay relative, repeated fields stay repeated)
+    if (300..400).contains(&code) || code == 201 {
+        fields.push(Field { name: "Location".into(), raw_value: b" ../next/step?x=1#top".to_vec() });
+        if index % 2 == 0 {
+            fields.push(Field { name: "location".into(), raw_value: b" /alt/two".to_vec() });
+        }
+        ctx.count("heads_with_relative_location", 1);
+    }
+    let head = Head { version: version.to_owned(), code, reason, fields, chunked: false };
     let seg = if index % 3 == 0 { Segmentation::Bytewise } else { Segmentation::Whole };
     ctx.count("status_codes_checked", 1);
     check_head(ctx, &head, &seg, None, "status");
